@@ -123,8 +123,9 @@ def h_api(ctx):
     seed = core.seed()
     with_clim = ctx.choose("clim", (False, True), free=True)
     near = bool(ctx.params.get("near"))
-    unknown_elev = ctx.choose("unknown-elevation", (False, True))
-    b_own_obs = ctx.choose("B-has-its-own-observations", (False, True))
+    extras = ctx.params.get("extras", True)
+    unknown_elev = ctx.choose("unknown-elevation", (False, True)) if extras else False
+    b_own_obs = ctx.choose("B-has-its-own-observations", (False, True)) if extras else False
     A, B, clim, locs, times = dataset(seed, with_clim, near, unknown_elev, b_own_obs)
     ov = option_values([l if l[3] == l[3] else (l[0], l[1], l[2], 1250.0) for l in locs], times, near)
     kw = {}
@@ -363,12 +364,17 @@ def run(tier, only=None):
             st = explore.explore(h_api, mode="dev", k=3, repo_root=core.REPO)
             bound = "dev(3) over 9 options x {absent, 3 values} + -obsrange, x {no climatology, climatology}"
         else:
-            st = explore.explore(h_api, mode="full", repo_root=core.REPO, time_cap=1500)
+            st = explore.explore(h_api, mode="full", params={"extras": False}, repo_root=core.REPO, time_cap=1500)
             bound = "full product 4^9 option combinations x 3 obs ranges x {no climatology, climatology}"
         subs.append(core.Sub.from_e1("api", st, bound=bound,
                                      rule="one execution = one option combination on Data(); selected times/leadtimes/locations and every request "
                                           "compared with the reference; non-trivial = the selection is a strict subset",
-                                     required_flags=("empty", "obsrange", "unknown-elevation", "own-observations"), wall=time.time() - t0))
+                                     required_flags=("empty", "obsrange", "unknown-elevation", "own-observations") if tier == "quick" else ("empty", "obsrange"), wall=time.time() - t0))
+    if only in (None, "api-extras") and tier != "quick":
+        t0 = time.time()
+        st = explore.explore(h_api, mode="dev", k=4, repo_root=core.REPO, time_cap=1500)
+        subs.append(core.Sub.from_e1("api-extras", st, bound="dev(4) over the 9 options, -obsrange, an unknown station elevation and per-file observations",
+                                     rule="as api", required_flags=("empty", "obsrange", "unknown-elevation", "own-observations"), wall=time.time() - t0))
     if only in (None, "api-near"):
         t0 = time.time()
         kk = 2 if tier == "quick" else 3
@@ -390,8 +396,11 @@ def run(tier, only=None):
 
 
 def replay(rec):
-    if rec["subcheck"] in ("api", "api-near"):
-        ctx, _ = explore.replay(h_api, rec["choices"], None, params={"near": rec["subcheck"] == "api-near"}, repo_root=core.REPO)
+    if rec["subcheck"] in ("api", "api-near", "api-extras"):
+        params = {"near": rec["subcheck"] == "api-near"}
+        if rec["subcheck"] == "api" and rec.get("tier") == "thorough":
+            params["extras"] = False
+        ctx, _ = explore.replay(h_api, rec["choices"], None, params=params, repo_root=core.REPO)
         return [v.locus for v in ctx.violations if v.locus == rec["signature"][1]]
     with_clim = rec["subcheck"] == "lattice-clim"
     m = Lattice(rec.get("seed", core.seed()), with_clim)
